@@ -4,10 +4,12 @@
 (* variant, data, seed, hyper-parameters) together with the PLAN of        *)
 (* environments it must be run in: plan = <<threads, repetitions>> pairs   *)
 (* (threads = 0: rayon's global pool), each executed in nproc fresh        *)
-(* processes.  Four families:                                              *)
+(* processes.  Five families:                                              *)
 (*   tie  : every small labelled lattice data set (sorted multisets of     *)
 (*          (x, z, label) rows, labels an initial segment) x the           *)
 (*          estimators whose result can hinge on a tie / on map order      *)
+(*   frac : five fixed points x every 3-class labelling x decision trees    *)
+(*          (class fractions that are not dyadic: order-dependent sums)    *)
 (*   blob : every estimator variant of the catalogue x generated data sets *)
 (*   hook : k-means family on small data with the kmeans.par hook recorded *)
 (*          under the full thread plan (binds the schedule model)          *)
@@ -25,8 +27,9 @@ CONSTANTS MaxLatN,     \* tie family: 2..MaxLatN rows
 VARIABLE case
 
 \* generated data sets <<n, d, c, dataseed>> (n rows, d features, c blobs)
-BlobSets == IF Tier = "quick" THEN {<<40, 2, 2, 1>>, <<150, 3, 3, 2>>, <<150, 3, 5, 3>>}
-            ELSE {<<40, 2, 2, 1>>, <<150, 3, 3, 2>>, <<150, 3, 5, 3>>, <<60, 1, 2, 4>>, <<300, 4, 7, 5>>, <<90, 2, 3, 6>>}
+BlobSets == IF Tier = "quick" THEN {<<40, 2, 2, 1>>, <<150, 3, 3, 2>>, <<150, 3, 5, 3>>, <<120, 2, 7, 4>>}
+            ELSE {<<40, 2, 2, 1>>, <<150, 3, 3, 2>>, <<150, 3, 5, 3>>, <<120, 2, 7, 4>>, <<60, 1, 2, 5>>, <<300, 4, 7, 6>>,
+                  <<90, 2, 3, 7>>, <<200, 3, 6, 8>>}
 HookSets == IF Tier = "quick" THEN {<<9, 2, 3, 1>>, <<24, 2, 3, 2>>}
             ELSE {<<9, 2, 3, 1>>, <<24, 2, 3, 2>>, <<40, 3, 4, 3>>, <<17, 1, 2, 4>>}
 BigSets  == IF Tier = "quick" THEN {<<1500, 3, 4, 1>>}
@@ -47,14 +50,24 @@ LatSets(n) == {s \in [1..n -> 1..K] :
 Lat(s) == [NoData EXCEPT !.g = "lat", !.x = [p \in 1..Len(s) |-> <<KX(s[p]), KZ(s[p])>>],
                          !.y = [p \in 1..Len(s) |-> KLab(s[p])], !.n = Len(s), !.d = 2]
 
+\* ---- "frac" family: five distinct points, every labelling with three classes: class fractions
+\* that are not dyadic (3/5, 1/5, 1/5 ...), so that float sums over the classes depend on their order
+FracX == << <<0, 0>>, <<1, 0>>, <<2, 1>>, <<3, 3>>, <<4, 0>> >>
+FracSets == {y \in [1..5 -> 0..2] : {y[p] : p \in 1..5} = 0..2}
+Frac(y) == [NoData EXCEPT !.g = "lat", !.x = FracX, !.y = y, !.n = 5, !.d = 2]
+FracEsts == {<<"tree", "gini", FALSE, FALSE>>, <<"tree", "entropy", FALSE, FALSE>>, <<"tree_str", "gini", FALSE, FALSE>>}
+
 \* ---- plans
 PlanSeq  == << <<1, 2>>, <<4, 1>> >>                                            \* sequential estimators
 PlanFull == << <<1, 1>>, <<2, 2>>, <<3, 1>>, <<8, 1>>, <<16, 1>>, <<0, 1>> >>   \* rayon users
+PlanAll  == [q \in 1..17 |-> IF q = 17 THEN <<0, 1>> ELSE <<q, 1>>]              \* every pool size 1..16 + global pool
+PlanBig  == IF Tier = "quick" THEN PlanFull ELSE PlanAll
 
 \* ---- catalogue: <<estimator, variant, uses rayon, uses seed>>
 Catalogue == {
   <<"kmeans", "pp", TRUE, TRUE>>, <<"kmeans", "random", TRUE, TRUE>>, <<"kmeans", "pre", TRUE, FALSE>>,
   <<"kmeans", "default", TRUE, FALSE>>, <<"kmeans", "default_random", TRUE, FALSE>>,
+  <<"kmeans", "pp_f32", TRUE, TRUE>>, <<"kmeans", "random_f32", TRUE, TRUE>>,
   <<"kmeans_incr", "", TRUE, TRUE>>,
   <<"gmm", "kmeans", TRUE, TRUE>>, <<"gmm", "random", FALSE, TRUE>>, <<"gmm", "default", TRUE, FALSE>>,
   <<"dbscan", "", FALSE, FALSE>>, <<"optics", "", FALSE, FALSE>>,
@@ -72,6 +85,8 @@ Catalogue == {
   <<"tree", "gini", FALSE, FALSE>>, <<"tree", "entropy", FALSE, FALSE>>,
   <<"tree", "gini_w", FALSE, FALSE>>, <<"tree", "entropy_w", FALSE, FALSE>>,
   <<"gnb", "", FALSE, FALSE>>, <<"mnb", "", FALSE, FALSE>>,
+  <<"tree_str", "gini", FALSE, FALSE>>, <<"tree_str", "entropy", FALSE, FALSE>>, <<"gnb_str", "", FALSE, FALSE>>,
+  <<"nb_incr", "gaussian", FALSE, FALSE>>, <<"nb_incr", "multinomial", FALSE, FALSE>>,
   <<"ftrl", "seeded", FALSE, TRUE>>, <<"ftrl", "default", FALSE, FALSE>>,
   <<"pca", "plain", FALSE, FALSE>>, <<"pca", "whiten", FALSE, FALSE>>,
   <<"diffmap", "", FALSE, FALSE>>, <<"ica", "", FALSE, TRUE>>,
@@ -90,7 +105,8 @@ TieSensitive == {
   <<"tree", "gini", FALSE, FALSE>>, <<"tree", "entropy", FALSE, FALSE>>, <<"gnb", "", FALSE, FALSE>>,
   <<"mnb", "", FALSE, FALSE>>, <<"svm_multi", "", FALSE, FALSE>>, <<"mlogistic", "", FALSE, FALSE>>,
   <<"hier", "average", FALSE, FALSE>>, <<"kmeans", "pp", TRUE, TRUE>>, <<"dbscan", "", FALSE, FALSE>>,
-  <<"optics", "", FALSE, FALSE>>, <<"countvec", "maxfeat", FALSE, FALSE>> }
+  <<"optics", "", FALSE, FALSE>>, <<"countvec", "maxfeat", FALSE, FALSE>>,
+  <<"tree_str", "gini", FALSE, FALSE>>, <<"gnb_str", "", FALSE, FALSE>>, <<"nb_incr", "gaussian", FALSE, FALSE>> }
 
 \* (the mixture model runs the same k-means code ~50 times per fit: it is covered by the big family)
 HookEsts == {e \in Catalogue : e[1] \in {"kmeans", "kmeans_incr"}}
@@ -110,12 +126,13 @@ Init ==
         /\ k <= n
         /\ k = 2 \/ e[1] \in {"hier", "kmeans"}          \* k matters for the clusterers only
         /\ case = Mk("tie", e, Lat(s), 7, k, PlanSeq, 2, FALSE)
+  \/ \E y \in FracSets, e \in FracEsts : case = Mk("frac", e, Frac(y), 7, 2, PlanSeq, 2, FALSE)
   \/ \E e \in Catalogue, b \in BlobSets : \E sd \in SeedsOf(e) :
         case = Mk("blob", e, Blob(b), sd, 3, IF e[3] THEN PlanFull ELSE PlanSeq, 2, FALSE)
   \/ \E e \in HookEsts, b \in HookSets : \E sd \in SeedsOf(e) :
         case = Mk("hook", e, Blob(b), sd, 3, PlanFull, 2, TRUE)
   \/ \E e \in BigEsts, b \in BigSets : \E sd \in SeedsOf(e) :
-        case = Mk("big", e, Blob(b), sd, 4, PlanFull, 2, FALSE)
+        case = Mk("big", e, Blob(b), sd, 4, PlanBig, 2, FALSE)
 
 Next == UNCHANGED case
 Emit == PrintT("CASE " \o ToJson(case))
